@@ -80,8 +80,15 @@ def selftest(w, pid, trace, fn, what):
     """binding demonstration: corrupt one recorded field of a good trace; TLC
     must flag the copy (for this property, or as drift)"""
     dst = os.path.join(w.dir, "selftest_%s.ndjson" % pid)
-    if not vlib.corrupt_trace(trace, dst, fn):
-        raise Infra("selftest: nothing to corrupt in %s (%s)" % (trace, what))
+    # the given segment first; if it holds nothing the corruption applies to, any
+    # other trace validated in this run
+    for cand in [trace] + [r["trace"] for r in w.tv if r.get("trace") != trace]:
+        if hasattr(fn, "node"):
+            fn.node = None
+        if vlib.corrupt_trace(cand, dst, fn):
+            break
+    else:
+        raise Infra("selftest: nothing to corrupt in any trace of this run (%s)" % what)
     r = w.validate(dst, name="selftest_" + pid)
     w.tv.pop()  # not part of the evidence counts
     hit = [v for v in r["viol"] if v.get("p") == pid] or r["drift"]
